@@ -13,14 +13,18 @@ from common import Ctx, MachineryError, pmap
 # Is the colour context of the tree under test one process-global slot (True) or per thread (False)?
 IMPL_SHARED = False
 FLAGS = dict(SetOnAllPaths=True, ClearOnError=True, CopyOnConstruct=True)
-DOCS = ["plain", "colA", "colB", "multi", "fig", "paged", "pagedhdr", "grpA", "grpB", "texA", "texB"]
+DOCS = ["plain", "colA", "colB", "multi", "fig", "paged", "pagedhdr", "grpA", "grpB", "texA", "texB", "pgshare", "pgmulti", "subA", "subB",
+        "share2", "share3"]
 # (single tables with different column counts first: per-document layout state must not leak between encoders)
 # (a paginated document as the OTHER thread: wrong measurements made while A is parked change B's page breaks)
 # (group_by on different columns: per-document arguments must not be remembered on a process-wide service)
-PAIRS = [("colA", "colB"), ("plain", "colB"), ("colB", "plain"), ("colB", "paged"), ("grpA", "grpB"), ("grpB", "grpA"), ("colB", "multi"), ("fig", "colA"),
-         ("paged", "colB"), ("multi", "multi"), ("plain", "pagedhdr")]
-PLAN = {"quick": dict(gated=260, sites_pairs=7, every_instance=False, multi=60, nested_pairs=1),
-        "thorough": dict(gated=6000, sites_pairs=11, every_instance=True, multi=1500, nested_pairs=3)}
+# (documents built on ONE caller-owned RTFPage / RTFSubline / RTFBody: an encode must not edit, even temporarily, an
+#  object another thread's document reads)
+PAIRS = [("colA", "colB"), ("plain", "colB"), ("colB", "plain"), ("colB", "paged"), ("grpA", "grpB"), ("grpB", "grpA"), ("colB", "multi"),
+         ("pgmulti", "pgshare"), ("pgshare", "pgmulti"), ("subA", "subB"), ("share2", "share3"),
+         ("fig", "colA"), ("paged", "colB"), ("multi", "multi"), ("plain", "pagedhdr")]
+PLAN = {"quick": dict(gated=260, sites_pairs=11, every_instance=False, multi=60, nested_pairs=1),
+        "thorough": dict(gated=6000, sites_pairs=15, every_instance=True, multi=1500, nested_pairs=3)}
 JUDGE = ["C14_Pure", "C14_Outcome", "C14_AllRan"]
 
 
@@ -46,8 +50,12 @@ def _run_preempt_fresh(item):
     return r
 
 
+def _list_calls_warm(doc):
+    return sched.list_calls(doc, warm=True)
+
+
 def _run_preempt(item):
-    r = sched.run_preempt(item["A"], item["B"], item["ks"], item.get("C"))
+    r = sched.run_preempt(item["A"], item["B"], item["ks"], item.get("C"), warm=bool(item.get("warm")))
     r["id"] = item["id"]
     return r
 
@@ -64,6 +72,13 @@ def run(pid, tier, seed, replay=None):
     work = family.Work()
     rng = random.Random(seed)
     plan = PLAN[tier]
+    import time as _time
+    _t = {"last": _time.time()}
+
+    def phase(name):
+        now = _time.time()
+        ctx.extra.setdefault("phase_seconds", {})[name] = round(now - _t["last"], 1)
+        _t["last"] = now
     try:
         alone = {}
         for d in DOCS:
@@ -81,11 +96,12 @@ def run(pid, tier, seed, replay=None):
                              docs=sc["docs"], mode="nested", sc=sc)]
             else:
                 fn = _run_preempt_fresh if sc.get("fresh") else _run_preempt
-                runs = [dict(fn({"id": 0, "A": sc["docs"]["A"], "B": sc["docs"]["B"], "C": sc["docs"].get("C"), "ks": sc["ks"]}),
+                runs = [dict(fn({"id": 0, "A": sc["docs"]["A"], "B": sc["docs"]["B"], "C": sc["docs"].get("C"), "ks": sc["ks"], "warm": sc.get("warm")}),
                              docs=sc["docs"], mode="preempt", sc=sc)]
             _judge(ctx, work, runs, alone)
             ctx.note_case("a", True); ctx.note_case("b", True); ctx.sample({"replayed": replay}); ctx.rule = "replay"
             return ctx.finish()
+        phase("fresh digests")
         # 1. MODEL: all interleavings, two and three threads
         res = tlc.run("ColorCtxMC", _mc(work, "m2i.cfg", ["A", "B"], "Progs2", False, ["TypeOK", "Isolation", "Resolves", "CtxReleased"]))
         ctx.add_tlc("model: 2 threads, per-thread context (intended)", res)
@@ -99,6 +115,7 @@ def run(pid, tier, seed, replay=None):
             res = tlc.run("ColorCtxMC", _mc(work, "m2s.cfg", ["A", "B"], "Progs2", True, ["Isolation"]))
             ctx.add_tlc("model: 2 threads, process-global context (as implemented)", res)
             ctx.extra["as_implemented_model_violates"] = res.violated
+        phase("model checking")
         # 2a. schedules of colour events generated by TLC (all interleavings), replayed with the gate
         cfg = _mc(work, "sch.cfg", ["A", "B"], "Progs2", IMPL_SHARED, ["SEmit"], spec="SSpec")
         res = tlc.run("ColorSched", cfg, coverage=False)
@@ -128,6 +145,7 @@ def run(pid, tier, seed, replay=None):
                         break
             runs.append(dict(r, docs=it["docs"], mode="gated", sc={"mode": "gated", "docs": it["docs"], "schedule": it["schedule"]}))
         ctx.extra["conformance"] = {"gated_schedules_replayed": len(items), "drift": nd}
+        phase("gated schedules")
         # 2b. one preemption at every library function-call boundary (the quantifier's schedule space)
         pitems = []
         site_total = 0
@@ -151,7 +169,9 @@ def run(pid, tier, seed, replay=None):
             for site in sched.list_calls_fresh(a):
                 seenf[site] = seenf.get(site, 0) + 1
                 fitems.append({"id": len(fitems), "A": a, "B": b, "ks": [[site[0], site[1], site[2], seenf[site]]]})
+        phase("call listings")
         fresh_runs = pmap(_run_preempt_fresh, fitems, chunk=16)
+        phase("fresh-process runs")
         bad_child = [r for r in fresh_runs if "child" in r]
         if len(bad_child) > len(fresh_runs) // 50:
             raise MachineryError("forked schedule runs failed: %d of %d (%r)" % (len(bad_child), len(fresh_runs), bad_child[0].get("child")))
@@ -161,18 +181,33 @@ def run(pid, tier, seed, replay=None):
             docs = {"A": it["A"], "B": it["B"]}
             runs.append(dict(r, docs=docs, mode="preempt", sc={"mode": "preempt", "docs": docs, "ks": it["ks"], "fresh": True}))
         ctx.extra["fresh_process_preemption_runs"] = len(fitems)
+        # 2b''. a saturated process: before the schedule the process converted 200 distinct LaTeX strings (bounded memo tables
+        # are full, so that entries are evicted while the threads run); thread A preempted at the first instance of every
+        # call site of an encode made in that state
+        wcalls = pmap(_list_calls_warm, ["texA"] * 8, procs=2, chunk=4)[0]
+        wseen = set()
+        nwarm = 0
+        for site in wcalls:
+            if site in wseen:
+                continue
+            wseen.add(site)
+            pitems.append({"id": len(pitems), "A": "texA", "B": "texB", "ks": [[site[0], site[1], site[2], 1]], "warm": True})
+            nwarm += 1
+        ctx.extra["saturated_process_preemption_runs"] = nwarm
         # 2c. sampled schedules with two and three preemptions, three threads
         for _ in range(plan["multi"]):
             a, b, c = rng.choice(["colA", "colB", "paged"]), rng.choice(["colB", "multi", "fig"]), rng.choice(["colA", "multi", "plain"])
             n = 1000
             ks = sorted(rng.sample(range(1, n), rng.choice([2, 3])))
             pitems.append({"id": len(pitems), "A": a, "B": b, "C": c, "ks": ks})
+        phase("warm listing")
         pre = pmap(_run_preempt, pitems, chunk=8)
+        phase("preemption runs")
         for it, r in zip(pitems, pre):
             docs = {"A": it["A"], "B": it["B"]}
             if it.get("C"):
                 docs["C"] = it["C"]
-            runs.append(dict(r, docs=docs, mode="preempt", sc={"mode": "preempt", "docs": docs, "ks": it["ks"]}))
+            runs.append(dict(r, docs=docs, mode="preempt", sc={"mode": "preempt", "docs": docs, "ks": it["ks"], "warm": bool(it.get("warm"))}))
         # 2d. two preemptions, nested: A parked at one of its call sites, B parked at one of its own, A finishes, B
         # finishes - every pair of distinct call sites (first instances)
         nitems = []
@@ -187,7 +222,9 @@ def run(pid, tier, seed, replay=None):
             for sa in fa:
                 for sb in fb:
                     nitems.append({"id": len(nitems), "A": a, "B": b, "kA": [sa[0], sa[1], sa[2], 1], "kB": [sb[0], sb[1], sb[2], 1]})
+        phase("nested listing")
         nest = pmap(_run_nested, nitems, chunk=32)
+        phase("nested runs")
         for it, r in zip(nitems, nest):
             docs = {"A": it["A"], "B": it["B"]}
             runs.append(dict(r, docs=docs, mode="nested", sc={"mode": "nested", "docs": docs, "kA": it["kA"], "kB": it["kB"]}))
@@ -195,6 +232,7 @@ def run(pid, tier, seed, replay=None):
         for i, r in enumerate(runs):
             r["id"] = i
         _judge(ctx, work, runs, alone)
+        phase("trace validation")
         for r in runs:
             ctx.note_case(json.dumps(r["sc"], sort_keys=True), True)
         for r in runs[:2] + runs[-2:]:
